@@ -179,6 +179,8 @@ impl<W, R, T> Runtime<W, R, T> {
                 );
             }
             if usize::from(stats.size) > max_size {
+                // the value is never created: its bytes must not stay accounted
+                stats.size -= size;
                 Err(RuntimeViolation::AllocationLimitReached)
             } else {
                 Ok(size)
